@@ -12,14 +12,17 @@ EXTENDS Integers, Sequences, FiniteSets, TLC
 
 CONSTANTS MaxLen, NFiles
 
-VARIABLES shape, done, law
-vars == <<shape, done, law>>
+VARIABLES shape, mag, done, law
+vars == <<shape, mag, done, law>>
 
 Frame == [file : 1..NFiles, idx : 0..2, rev : BOOLEAN, en : {"none", "zero", "value"}]
 Shapes == UNION {[1..k -> Frame] : k \in 1..MaxLen}
 
-Init == shape \in Shapes /\ done = FALSE /\ law = "?"
-Apply == /\ ~done /\ done' = TRUE /\ UNCHANGED shape
+(* magnitude class of the order-parameter values: "unit" values of a few characters, "wide" values that fill the  *)
+(* column of order.txt completely (five digits before the point, or a sign and four)                              *)
+Mags == {"unit", "wide"}
+Init == shape \in Shapes /\ mag \in Mags /\ done = FALSE /\ law = "?"
+Apply == /\ ~done /\ done' = TRUE /\ UNCHANGED <<shape, mag>>
          /\ law' = "load(store(p)) has Len(p) frames; frame k refers to the stored copy of the same file (same base name, under the path's own directory), the same index and the same velocity direction; the same order parameter to six decimals; the same energies where frame k has them and none where it has not; the stored copy holds what the source file held"
 Next == Apply
 Spec == Init /\ [][Next]_vars
